@@ -9,4 +9,7 @@ PINS = {
 
 
 def generate():
-    return modelpins.generate_for("C02", PINS)
+    text, changed = modelpins.generate_for("C02", PINS)
+    if changed:
+        print("PIN-MISMATCH PinsC02: %s changed; the hand-written model of C02 mirrors the pinned text" % ", ".join(changed))
+    return text
